@@ -96,6 +96,18 @@ func (i *interpreter) yield(blocked bool) {
 	if next == nil {
 		panic(deadlock{sc.describe()})
 	}
+	if sc.schedChoice {
+		// which runnable goroutine continues is a choice point
+		var cands []*gor
+		for _, x := range sc.gs {
+			if !x.done && (!x.blocked || x.stamp < sc.progress) {
+				cands = append(cands, x)
+			}
+		}
+		if len(cands) > 1 {
+			next = cands[i.s.choose(len(cands))]
+		}
+	}
 	if next == g {
 		g.blocked = false
 		return
@@ -119,8 +131,16 @@ func (sc *sched) describe() string {
 	return fmt.Sprintf("all %d live goroutines are blocked", n)
 }
 
+func (i *interpreter) spawnAt(fn value, args []value) {
+	goEv := -1
+	if i.evlog != nil {
+		goEv = i.ev(evGo).id
+	}
+	i.spawn(fn, args, goEv)
+}
+
 // spawn starts an interpreted goroutine running fn(args).
-func (i *interpreter) spawn(fn value, args []value) {
+func (i *interpreter) spawn(fn value, args []value, goEv int) {
 	sc := i.sc
 	g := &gor{id: len(sc.gs), wake: make(chan struct{}, 1)}
 	sc.gs = append(sc.gs, g)
@@ -166,6 +186,10 @@ func (i *interpreter) spawn(fn value, args []value) {
 			sc.cur = next
 			next.wake <- struct{}{}
 		}()
+		if i.evlog != nil {
+			e := i.ev(evStart)
+			e.link = goEv
+		}
 		call(i, nil, 0, fn, args)
 	}()
 }
@@ -212,6 +236,11 @@ func (i *interpreter) chanSend(ch *gchan, v value) {
 			panic(runtimeErrPlain("send on closed channel"))
 		}
 		ch.buf = append(ch.buf, v)
+		if i.evlog != nil {
+			e := i.ev(evSend)
+			e.obj = ch
+			i.evlog.lastSend[ch] = append(i.evlog.lastSend[ch], e.id)
+		}
 		sc.bump()
 		return
 	}
@@ -223,6 +252,11 @@ func (i *interpreter) chanSend(ch *gchan, v value) {
 	}
 	me := sc.cur
 	ch.slot, ch.slotFull, ch.slotOwner = v, true, me
+	if i.evlog != nil {
+		e := i.ev(evSend)
+		e.obj = ch
+		i.evlog.lastSend[ch] = append(i.evlog.lastSend[ch], e.id)
+	}
 	sc.bump()
 	for ch.slotFull && ch.slotOwner == me && !ch.closed {
 		i.yield(true)
@@ -247,6 +281,13 @@ func (i *interpreter) chanRecv(ch *gchan) (value, bool) {
 	}()
 	for {
 		if v, ok, got := ch.tryRecv(sc); got {
+			i.recvEvent(ch, ok)
+			if i.evlog != nil && ok {
+				// race mode: let the other goroutines run after a successful receive, so that the
+				// recorded skeleton spreads the work over the consumers instead of letting the
+				// first one drain the channel
+				i.yield(false)
+			}
 			return v, ok
 		}
 		if !registered {
@@ -285,7 +326,28 @@ func (i *interpreter) chanClose(ch *gchan) {
 		panic(runtimeErrPlain("close of closed channel"))
 	}
 	ch.closed = true
+	if i.evlog != nil {
+		e := i.ev(evClose)
+		e.obj = ch
+		i.evlog.closeEv[ch] = e.id
+	}
 	i.sc.bump()
+}
+
+func (i *interpreter) recvEvent(ch *gchan, ok bool) {
+	if i.evlog == nil {
+		return
+	}
+	e := i.ev(evRecv)
+	e.obj = ch
+	if ok {
+		if q := i.evlog.lastSend[ch]; len(q) > 0 {
+			e.link = q[0]
+			i.evlog.lastSend[ch] = q[1:]
+		}
+	} else if c, has := i.evlog.closeEv[ch]; has {
+		e.link = c
+	}
 }
 
 // runtimeErrPlain is a Go runtime panic whose message has no "runtime error: " prefix.
@@ -340,6 +402,7 @@ func (i *interpreter) doSelect(fr *frame, instr *ssa.Select) value {
 				i.chanSend(c.ch, c.v)
 			} else {
 				rv, rok, _ = c.ch.tryRecv(sc)
+				i.recvEvent(c.ch, rok)
 			}
 			r := tuple{pick, rok}
 			for k, st := range instr.States {
@@ -398,6 +461,11 @@ func init() {
 		if st.n < 0 {
 			panic(targetPanic{"sync: negative WaitGroup counter"})
 		}
+		if fr.i.evlog != nil {
+			e := fr.i.ev(evDone)
+			e.obj = p
+			fr.i.evlog.dones[p] = append(fr.i.evlog.dones[p], e.id)
+		}
 		sc.bump()
 		return nil
 	}
@@ -407,6 +475,11 @@ func init() {
 		for {
 			st := sc.wgs[p]
 			if st == nil || st.n == 0 {
+				if fr.i.evlog != nil {
+					e := fr.i.ev(evWait)
+					e.obj = p
+					e.links = append([]int{}, fr.i.evlog.dones[p]...)
+				}
 				return nil
 			}
 			fr.i.yield(true)
@@ -420,10 +493,17 @@ func init() {
 			st = &muState{}
 			sc.mus[p] = st
 		}
+		if sc.schedChoice && fr.caller != nil && fr.i.isCodeUnderTest(fr.caller.fn) {
+			fr.i.yield(false) // a lock taken by the code under test is a scheduling point when schedules are explored
+		}
 		for st.locked || st.readers > 0 {
 			fr.i.yield(true)
 		}
 		st.locked = true
+		if fr.i.evlog != nil {
+			e := fr.i.ev(evLock)
+			e.obj = p
+		}
 		return nil
 	}
 	unlock := func(fr *frame, a []value) value {
@@ -434,6 +514,10 @@ func init() {
 			panic(targetPanic{"sync: unlock of unlocked mutex"})
 		}
 		st.locked = false
+		if fr.i.evlog != nil {
+			e := fr.i.ev(evUnlock)
+			e.obj = p
+		}
 		sc.bump()
 		return nil
 	}
@@ -531,6 +615,7 @@ func init() {
 					pick = ready[i.s.choose(len(ready))]
 				}
 				v, ok, _ := rcs[pick].ch.tryRecv(sc)
+				i.recvEvent(rcs[pick].ch, ok)
 				if !ok {
 					v = zero(rcs[pick].et)
 				}
